@@ -154,15 +154,29 @@ Definition impl_path_toks : toks :=
 
 Definition impl_path_fty : fty := TyPath false true 2 "entrait" impl_path_toks.
 
-(** [__impl: &::entrait::Impl<EntraitT>] *)
-Definition impl_receiver : fnarg := ArgTyped [] (PIdent false false "__impl" []) (TyRef None false impl_path_fty).
+(** [__impl: & 'a? ::entrait::Impl<EntraitT>]: [__impl] is borrowed for as long as the dependency reference /
+    the receiver it stands for *)
+Definition impl_receiver_lt (l : option string) : fnarg :=
+  ArgTyped [] (PIdent false false "__impl" []) (TyRef l false impl_path_fty).
+Definition impl_receiver : fnarg := impl_receiver_lt None.
+
+(** the lifetime written on a reference ([Some (Some a)] = [&'a]), if any *)
+Definition ref_lifetime (reference : option (option string)) : option string :=
+  match reference with Some l => l | None => None end.
+
+(** a plain [self] / [mut self] receiver (no reference, no type ascription) *)
+Definition plain_self_by_value (s : sig) : bool :=
+  match p_items (s_inputs s) with
+  | ArgRecv _ None _ None :: _ => true
+  | _ => false
+  end.
 
 Definition self_receiver (reference : option (option string)) : fnarg := ArgRecv [] reference false None.
 
 Definition gen_first_receiver (k : receiver_kind) (reference : option (option string)) : fnarg :=
   match k with
   | RSelfRef | RDynamicImpl => self_receiver reference
-  | RStaticImpl => impl_receiver
+  | RStaticImpl => impl_receiver_lt (ref_lifetime reference)
   end.
 
 (** [generate_params] *)
@@ -178,10 +192,16 @@ Definition generate_params (k : receiver_kind) (deps : fn_deps) (inputs : punct 
         | ArgRecv _ _ _ _ :: _ => Panic "converter.rs:88 receiver in Rewrite"
         end
     end in
+  let deps_lifetime :=
+    match deps, p_items inputs with
+    | DNoDeps, _ => None
+    | _, ArgTyped _ _ (TyRef l _ _) :: _ => l
+    | _, _ => None
+    end in
   match k with
   | RDynamicImpl =>
       if Nat.ltb (p_len inputs1) 1 then Panic "Punctuated::insert: index out of range"
-      else Ok (p_insert 1 impl_receiver inputs1)
+      else Ok (p_insert 1 (impl_receiver_lt deps_lifetime) inputs1)
   | _ => Ok inputs1
   end.
 
